@@ -33,10 +33,12 @@ def q1_sole_writer(ctx, prog, cg, rule='Q1'):
     from rules.C20 import is_final_seed
     from engine.dataflow import PtrTaint
     others = []
+    live_params, live_seed = common.pointer_flow(prog, is_final_seed)
+    mine = {g.key for g in common.with_helpers(prog, W)}
     for f in prog.functions:
-        if f.name == WRITER:
+        if f.name == WRITER or f.key in mine:
             continue
-        pt = PtrTaint(f, is_final_seed)
+        pt = PtrTaint(f, live_seed, live_params.get(f.key, ()))
         for c in f.calls():
             if c.get('callee') in ('fopen', 'open', 'rename', 'unlink', 'truncate', 'creat', 'remove'):
                 for i, a in enumerate(c.ch[1:]):
@@ -212,6 +214,92 @@ def follower_test(ctx, prog, rule):
     chk.ob(rule, 'entry-at-line-start', prev == {10}, FE.where(), FE.name,
            'an entry must start the content or follow a newline; the preceding character is compared with %s' % sorted(prev),
            how='entryPos == content || entryPos[-1] == LF')
+
+
+LIBC_WRITES_ARG0 = {'strtok', 'strtok_r', 'strsep', 'strcpy', 'strncpy', 'stpcpy', 'strcat', 'strncat', 'memcpy', 'memmove',
+                    'memset', 'sprintf', 'snprintf', 'fgets', 'bzero', '__builtin_memcpy', '__builtin_memset',
+                    '__builtin_strcpy', '__builtin_strncpy'}
+
+
+def old_content_intact_rule(ctx, prog, cg, root_name, rule):
+    """The text read from the file is what the new content is built from, so nothing may change it on the way: no
+    function the action reaches stores through a pointer into it - in the action itself or in a helper it is handed
+    to - unless the store is undone on every path (`saved = *p; *p = 0; ...; *p = saved;`), and no libc function
+    that writes through its first argument is given one."""
+    from engine.dataflow import PtrTaint
+    chk = ctx.chk
+    root = prog.require_func(root_name)
+    reach = cg.reachable([root])
+    seed = lambda n: n.k == 'CallExpr' and n.get('callee') == READER
+    params, seed2 = common.pointer_flow(prog, seed)
+    n = 0
+    for key, (f, _, _) in sorted(reach.items(), key=lambda kv: str(kv[0])):
+        if f.name == READER or f.cfg_error:
+            continue
+        pt = PtrTaint(f, seed2, params.get(f.key, ()))
+        bad = None
+        stores = pt.stores()
+        for st in stores:
+            if st.k != 'BinaryOperator' or st.get('op') != '=':
+                bad = (st, 'is modified in place by %s' % render(st)[:50])
+                break
+            if _is_restore(f, st, stores) or _is_undone(f, st, stores):
+                continue
+            bad = (st, 'is modified in place by %s and not put back on every path' % render(st)[:50])
+            break
+        if bad is None:
+            for cl, i, a in pt.pointer_args():
+                if i == 0 and cl.get('callee') in LIBC_WRITES_ARG0:
+                    bad = (cl, 'is written to by %s' % render(cl)[:50])
+                    break
+        touched = bool(stores) or any(True for _ in pt.pointer_args()) or any(seed2(x) for x in f.body.walk())
+        if not touched:
+            continue
+        n += 1
+        chk.ob(rule, 'old-content-left-intact[%s]' % f.name, bad is None, (bad[0] if bad else f).where(), f.name,
+               'the content read from the file %s: everything the action does afterwards - the searches, the copy into the '
+               'new content - works on a different text than the file holds' % (bad[1] if bad else ''),
+               how='no store through a pointer into the text read from the file (or saved and restored on every path)')
+    if n == 0:
+        raise AnalysisBroken('no function reachable from %s handles the text returned by %s' % (root_name, READER))
+
+
+def _lvalue_text(st):
+    return render(strip(st.ch[0]))
+
+
+def _is_restore(f, st, stores):
+    """`*p = saved` where saved was loaded from the same lvalue"""
+    r = decl_of(st.ch[1])
+    if r is None or r.get('kind') != 'var':
+        return False
+    from engine.dataflow import def_exprs
+    return any(render(strip(d)) == _lvalue_text(st) for d in def_exprs(f, r['id']))
+
+
+def _is_undone(f, st, stores):
+    """every path from the store to the function's exit passes a restore of the same lvalue, and the variables the
+    lvalue is made of do not change in between"""
+    lv = _lvalue_text(st)
+    ids = {x['ref']['id'] for x in strip(st.ch[0]).walk() if x.k == 'DeclRefExpr' and x['ref'].get('kind') in ('var', 'parm')}
+    rest = [o for o in stores if o is not st and o.k == 'BinaryOperator' and _lvalue_text(o) == lv and _is_restore(f, o, stores)]
+    if not rest:
+        return False
+    rid = {C.cfg_elem_of(f, o).id for o in rest}
+    moved = {'hit': False}
+
+    def stop(e):
+        if e.id in rid:
+            return True
+        for x in e.walk():
+            if any(common.modifies_var(x, i) for i in ids):
+                moved['hit'] = True
+        return False
+    pos = C.elem_positions(f)
+    el = C.cfg_elem_of(f, st)
+    b, i = pos[el.id]
+    _, ex = C.reach(f, (b, i + 1), stop)
+    return not ex and not moved['hit']
 
 
 def cli_memory_rules(ctx, prog, cg, root_name, rule):
@@ -578,6 +666,7 @@ def run(ctx):
     line_start_rule(ctx, prog, 'Q7')
     own_occurrence_rule(ctx, prog, 'Q7')
     cli_memory_rules(ctx, prog, cg, ENABLE, 'Q8')
+    old_content_intact_rule(ctx, prog, cg, ENABLE, 'Q3')
     whole_file_read_rule(ctx, prog, cg, 'Q1')
     # ---- Q3 ------------------------------------------------------------------------------------------
     ba = BoundsAnalysis(prog, cg)
